@@ -1,11 +1,16 @@
 package scen
 
 import (
+	"crypto/ecdsa"
+	"crypto/elliptic"
+	crand "crypto/rand"
 	"crypto/tls"
 	"crypto/x509"
+	"crypto/x509/pkix"
 	"encoding/base64"
 	"encoding/pem"
 	"fmt"
+	"math/big"
 	"net"
 	"os"
 	"strconv"
@@ -78,7 +83,7 @@ type tagPlugin struct {
 
 var staticTLS *tls.Config
 var staticLeaf *x509.Certificate
-var realCertB64, realCert2B64, realCertJunkB64 string
+var realCertB64, realCert2B64, realCertJunkB64, realCertNoSANB64, realCertIPSANB64 string
 
 func init() {
 	// a self-signed certificate generated once per process (contents never influence control flow)
@@ -96,6 +101,23 @@ func init() {
 	realCertB64 = base64.RawStdEncoding.EncodeToString(blk.Bytes)
 	realCert2B64 = base64.RawStdEncoding.EncodeToString(append(append([]byte(nil), blk.Bytes...), blk.Bytes...))
 	realCertJunkB64 = base64.RawStdEncoding.EncodeToString(append(append([]byte(nil), blk.Bytes...), 0, 1))
+	// certificates as a plugin that is not go-plugin's Serve may make them: without any subjectAltName, or with an IP address only
+	mk := func(ips []net.IP) string {
+		key, err := ecdsa.GenerateKey(elliptic.P256(), crand.Reader)
+		if err != nil {
+			panic(err)
+		}
+		tmpl := &x509.Certificate{SerialNumber: big.NewInt(11), Subject: pkix.Name{CommonName: "plugin"}, IPAddresses: ips,
+			NotBefore: time.Now().Add(-time.Hour), NotAfter: time.Now().Add(100 * 365 * 24 * time.Hour), IsCA: true, BasicConstraintsValid: true,
+			KeyUsage: x509.KeyUsageDigitalSignature | x509.KeyUsageCertSign, ExtKeyUsage: []x509.ExtKeyUsage{x509.ExtKeyUsageServerAuth, x509.ExtKeyUsageClientAuth}}
+		der, err := x509.CreateCertificate(crand.Reader, tmpl, tmpl, &key.PublicKey, key)
+		if err != nil {
+			panic(err)
+		}
+		return base64.RawStdEncoding.EncodeToString(der)
+	}
+	realCertNoSANB64 = mk(nil)
+	realCertIPSANB64 = mk([]net.IP{net.IPv4(127, 0, 0, 1)})
 }
 
 func (c startCfg) build(r *scriptRunner, timeout time.Duration) *plugin.ClientConfig {
@@ -140,7 +162,7 @@ var (
 	netAlpha   = []string{"tcp", "unix", "", "udp", "TCP", "tcp4", "unixgram", "t{ff}cp"}
 	addrAlpha  = []string{"127.0.0.1:1234", ":1234", "/tmp/s.sock", "", "256.0.0.1:1", "127.0.0.1:99999", "[::1]:80", "127.0.0.1", "127.0.0.1:12{ff}34"}
 	protoAlpha = []string{"netrpc", "\x00", "", "grpc", "GRPC", "bogus", "net{ff}rpc", "{fe}grpc"}
-	certAlpha  = []string{"\x00", "", "0123456789", strings.Repeat("!", 60), strings.Repeat("QUJD", 15), "REAL", strings.Repeat("\r", 60), "REAL2", "REALJUNK", "REALCR"}
+	certAlpha  = []string{"\x00", "", "0123456789", strings.Repeat("!", 60), strings.Repeat("QUJD", 15), "REAL", strings.Repeat("\r", 60), "REAL2", "REALJUNK", "REALCR", "REALNOSAN", "REALIPSAN"}
 	muxAlpha   = []string{"\x00", "", "true", "false", "1", "yes"}
 	shapeAlpha = []string{"LF", "CRLF", "blanks", "extra8", "trunc3", "trunc2", "trunc1", "trunc0", "nonl-eof", "nonl-silence", "emptyfirst", "long70k", "exit-before", "silence", "closed-alive", "nonl-closed-alive", "tail6k", "more2-exit", "more2-stay"}
 )
@@ -177,6 +199,10 @@ func (l lineSpec) fields() []string {
 			v = realCert2B64
 		case "REALJUNK": // one certificate followed by two stray bytes
 			v = realCertJunkB64
+		case "REALNOSAN": // a valid certificate without any subjectAltName
+			v = realCertNoSANB64
+		case "REALIPSAN": // a valid certificate whose only subjectAltName is an IP address
+			v = realCertIPSANB64
 		case "REALCR": // the valid certificate with carriage returns inside the base64 text (decoders skip them)
 			v = realCertB64[:40] + "\r" + realCertB64[40:80] + "\r\r" + realCertB64[80:]
 		}
@@ -396,7 +422,7 @@ func init() {
 		Check: func(x *vs.Exec, p explore.Params) {
 			c := cfgs[atoi(p["cfg"])]
 			l := lineFromKey(p["line"])
-			desc := fmt.Sprintf("cfg{%s} line=%q shape=%s", c, strings.ReplaceAll(strings.ReplaceAll(strings.ReplaceAll(strings.Join(l.fields(), "|"), realCert2B64, "<two-certs>"), realCertJunkB64, "<cert+2-bytes>"), realCertB64, "<valid-cert>"), l.shape)
+			desc := fmt.Sprintf("cfg{%s} line=%q shape=%s", c, strings.ReplaceAll(strings.ReplaceAll(strings.ReplaceAll(strings.ReplaceAll(strings.ReplaceAll(strings.Join(l.fields(), "|"), realCert2B64, "<two-certs>"), realCertJunkB64, "<cert+2-bytes>"), realCertB64, "<valid-cert>"), realCertNoSANB64, "<cert-without-SAN>"), realCertIPSANB64, "<cert-with-IP-SAN-only>"), l.shape)
 			r := x.Data["runner"].(*scriptRunner)
 			x.OnCleanup(r.exit)
 			ok, why := refAccept(c, l)
